@@ -31,11 +31,19 @@ class Connection:
 
     async def commit(self):
         await _yield()
-        self._bc.commit()
+        acommit = getattr(self._bc, 'acommit', None)   # optional asynchronous backend (vf.txmc)
+        if acommit is not None:
+            await acommit()
+        else:
+            self._bc.commit()
 
     async def rollback(self):
         await _yield()
-        self._bc.rollback()
+        arollback = getattr(self._bc, 'arollback', None)
+        if arollback is not None:
+            await arollback()
+        else:
+            self._bc.rollback()
 
     def close(self):
         self.closed = True
